@@ -151,6 +151,8 @@ def mk_cmp(op, a, b):
 class Builder(object):
     """turns ast expressions into canonical terms under an environment"""
 
+    strict_casts = False    # when True, asarray(x, dtype=...) / array(x, copy=...) stay visible as calls (they cast)
+
     def __init__(self, env=None, call_alias=None, name_map=None, on_call=None):
         self.env = dict(env or {})          # local name -> term
         self.call_alias = call_alias or {}  # dotted callee text -> canonical text
@@ -160,6 +162,7 @@ class Builder(object):
     def copy(self):
         b = Builder(self.env, self.call_alias, self.name_map, self.on_call)
         b._depth = self._depth
+        b.strict_casts = self.strict_casts
         return b
 
     # -- expressions
@@ -394,8 +397,8 @@ class Builder(object):
                 ctext = self.name_map.get(ctext, ctext)
         else:
             f_t = simp(self.t(fn))
-        if ctext in TRANSPARENT_CALLS and len(args) >= 1 and not any(k == 'dtype' and False for k, _ in kws):
-            return self._unsimp(args[0])
+        if ctext in TRANSPARENT_CALLS and len(args) >= 1 and not (self.strict_casts and (kws or len(args) > 1)):
+            return self._unsimp(args[0])     # a plain conversion; under strict_casts a dtype=/copy= argument keeps it visible as a cast
         if ctext in SQRT_CALLS and len(args) == 1:
             return ppow(self._unsimp(args[0]), Fraction(1, 2))
         if ctext == 'pow' and len(args) == 2:
